@@ -71,6 +71,31 @@ impl Path {
     pub fn to_path_buf(&self) -> (r: PathBuf)
         ensures r@ == self@,
     { unimplemented!() }
+    /// std::path::Path::with_extension: "creates an owned PathBuf like self but with
+    /// the given extension" (= clone + set_extension, std/src/path.rs)
+    #[verifier::external_body]
+    pub fn with_extension(&self, ext: String) -> (r: PathBuf)
+        ensures r@ == with_extension(self@, ext@),
+    { unimplemented!() }
+}
+/// further std::path::PathBuf methods (std/src/path.rs; `PathBuf: Deref<Target = Path>`),
+/// so that an edit that uses another spelling of the same operations still composes
+impl PathBuf {
+    /// `Path::with_extension` through deref
+    #[verifier::external_body]
+    pub fn with_extension(&self, ext: String) -> (r: PathBuf)
+        ensures r@ == with_extension(self@, ext@),
+    { unimplemented!() }
+    /// `PathBuf::as_path`: the same path, borrowed
+    #[verifier::external_body]
+    pub fn as_path(&self) -> (r: &Path)
+        ensures r@ == self@,
+    { unimplemented!() }
+    /// `Path::to_path_buf` through deref
+    #[verifier::external_body]
+    pub fn to_path_buf(&self) -> (r: PathBuf)
+        ensures r@ == self@,
+    { unimplemented!() }
 }
 /// R15: `AsRef<Path>` (std) under the name `AsRefP<Path>`: Verus gives std's
 /// `AsRef::as_ref` no specification; this is the same interface with the std
@@ -140,6 +165,14 @@ impl File {
             r.is_ok() && to is Start ==> final(self)@ == (FileV { pos: to->Start_0 as nat, ..old(self)@ }),
             final(self)@.path == old(self)@.path && final(self)@.snap == old(self)@.snap
                 && final(self)@.append == old(self)@.append && final(self)@.writable == old(self)@.writable,
+    { unimplemented!() }
+
+    /// AsyncSeekExt::stream_position (= `seek(SeekFrom::Current(0))`): the cursor, nothing changes
+    #[verifier::external_body]
+    pub fn stream_position(&mut self) -> (r: Result<u64>)
+        ensures
+            final(self)@ == old(self)@,
+            r.is_ok() ==> r.unwrap() as nat == old(self)@.pos,
     { unimplemented!() }
 
     /// AsyncReadExt::read_exact into a fixed array: all `N` bytes or Err (UnexpectedEof)
@@ -244,20 +277,23 @@ impl RwLockWriteGuard<File> {
 /// tokio::fs::OpenOptions.  std/tokio builders take and return `&mut Self`;
 /// every call site chains them on a temporary, so the stand-in passes the
 /// options by value (same expression text, same meaning).
-pub struct OpenOptions { pub read: bool, pub write: bool, pub append: bool, pub truncate: bool, pub create: bool }
+pub struct OpenOptions { pub read: bool, pub write: bool, pub append: bool, pub truncate: bool, pub create: bool, pub create_new: bool }
 impl OpenOptions {
     pub fn new() -> (r: Self)
-        ensures r == (OpenOptions { read: false, write: false, append: false, truncate: false, create: false }),
-    { OpenOptions { read: false, write: false, append: false, truncate: false, create: false } }
+        ensures r == (OpenOptions { read: false, write: false, append: false, truncate: false, create: false, create_new: false }),
+    { OpenOptions { read: false, write: false, append: false, truncate: false, create: false, create_new: false } }
     pub fn read(self, b: bool) -> (r: Self) ensures r == (OpenOptions { read: b, ..self }), { OpenOptions { read: b, ..self } }
     pub fn write(self, b: bool) -> (r: Self) ensures r == (OpenOptions { write: b, ..self }), { OpenOptions { write: b, ..self } }
     pub fn append(self, b: bool) -> (r: Self) ensures r == (OpenOptions { append: b, ..self }), { OpenOptions { append: b, ..self } }
     pub fn truncate(self, b: bool) -> (r: Self) ensures r == (OpenOptions { truncate: b, ..self }), { OpenOptions { truncate: b, ..self } }
     pub fn create(self, b: bool) -> (r: Self) ensures r == (OpenOptions { create: b, ..self }), { OpenOptions { create: b, ..self } }
+    /// std::fs::OpenOptions::create_new: "create a new file, failing if it already exists"
+    pub fn create_new(self, b: bool) -> (r: Self) ensures r == (OpenOptions { create_new: b, ..self }), { OpenOptions { create_new: b, ..self } }
 
     /// std::fs::OpenOptions::open: an existing file keeps its content unless
-    /// `truncate`; a missing file is created (empty) only with `create`,
-    /// otherwise the call fails; all or nothing
+    /// `truncate`; a missing file is created (empty) only with `create` (or
+    /// `create_new`, which in turn fails on an existing file), otherwise the
+    /// call fails; all or nothing
     #[verifier::external_body]
     pub fn open<P: AsRefP<Path>>(self, path: P, fs: &mut Fs) -> (r: Result<File>)
         ensures
@@ -265,7 +301,8 @@ impl OpenOptions {
             r.is_ok() ==> {
                 let p = path.pathv();
                 let existed = old(fs)@.dom().contains(p);
-                &&& (existed || self.create)
+                &&& (existed || self.create || self.create_new)
+                &&& !(existed && self.create_new)
                 &&& final(fs)@ == (if !existed || self.truncate { old(fs)@.insert(p, Seq::<u8>::empty()) } else { old(fs)@ })
                 &&& r.unwrap()@ == (FileV { path: p, snap: final(fs)@[p], pos: 0, append: self.append, writable: self.write || self.append })
             },
